@@ -4,6 +4,7 @@ import (
 	stdErrors "errors"
 
 	schema "github.com/jsightapi/jsight-schema-core"
+	"github.com/jsightapi/jsight-schema-core/kit"
 	"github.com/jsightapi/jsight-schema-core/notations/jschema"
 	"github.com/jsightapi/jsight-schema-core/notations/regex"
 
@@ -131,6 +132,12 @@ func (core *JApiCore) compileUserTypeWithAllDependencies(name string) error {
 	// Check user type is correct.
 	// We should do it here 'cause it will simplify further processing.
 	if err := currUT.Check(); err != nil {
+		// The error can be found in another user type used by this one, in that
+		// case its index is related to the body of that type.
+		var e kit.Error
+		if stdErrors.As(err, &e) && e.IncorrectUserType() != "" && dd.Has(e.IncorrectUserType()) {
+			return jschemaToJAPIError(err, dd.GetValue(e.IncorrectUserType()))
+		}
 		return jschemaToJAPIError(err, dd.GetValue(name))
 	}
 
